@@ -180,6 +180,50 @@ M('c05-asgi-iter-loop-close-only-on-error', 'C05', 'R6', G,
                         await stream.close()
                     raise
 """)
+# task cancellation (asyncio.CancelledError is a BaseException) must reach the close as well
+_READ_FINALLY = """                finally:
+                    if hasattr(stream, 'close'):
+                        await stream.close()
+            else:
+"""
+M('c05-asgi-read-loop-close-except-exception-else', 'C05', 'R6', G, _READ_FINALLY,
+  """                except Exception:
+                    if hasattr(stream, 'close'):
+                        try:
+                            await stream.close()
+                        except Exception:
+                            pass
+                    raise
+                else:
+                    if hasattr(stream, 'close'):
+                        await stream.close()
+            else:
+""")
+M('c05-asgi-read-loop-close-except-oserror-typeerror-else', 'C05', 'R6', G, _READ_FINALLY,
+  """                except (OSError, RuntimeError, Exception):
+                    if hasattr(stream, 'close'):
+                        await stream.close()
+                    raise
+                else:
+                    if hasattr(stream, 'close'):
+                        await stream.close()
+            else:
+""")
+M('c05-asgi-iter-loop-finally-closes-only-when-no-cancel', 'C05', 'R6', G,
+  """                finally:
+                    # NOTE(vytas): This could be DRYed with the above identical
+                    #   twoliner in a one large block, but OTOH we would be
+                    #   unable to reuse the current try.. except.
+                    if hasattr(stream, 'close'):
+                        await stream.close()
+""", """                except Exception:
+                    if hasattr(stream, 'close'):
+                        await stream.close()
+                    raise
+                else:
+                    if hasattr(stream, 'close'):
+                        await stream.close()
+""")
 M('c05-closeable-iterator-close-noop', 'C05', 'R6', 'falcon/app_helpers.py',
   "            self._stream.close()\n", "            self._stream.flush()\n")
 M('c05-wsgi-filelike-plain-iterator', 'C05', 'R6', A,
